@@ -22,7 +22,7 @@ use crate::{
 	info::{Info, SpatialTrackInfo},
 	listener::ListenerId,
 	playback_state_manager::PlaybackStateManager,
-	sound::Sound,
+	sound::{PlaybackState, Sound},
 	Decibels, Easing, Frame, Parameter, StartTime, Tween, Tweenable,
 };
 
@@ -165,6 +165,11 @@ impl Track {
 			.playback_state_manager
 			.update(dt * out.len() as f64, &info);
 		if changed_playback_state {
+			// tracks have no stopped state: a track that was waiting to resume
+			// at the time of a clock that no longer exists stays paused
+			if self.playback_state_manager.playback_state() == PlaybackState::Stopped {
+				self.playback_state_manager.mark_as_paused();
+			}
 			self.update_shared_playback_state();
 		}
 		if !self.playback_state_manager.playback_state().is_advancing() {
